@@ -10,18 +10,21 @@ Module I := FloatIntervalFull F.
 Definition prec := F.PtoP 100.
 Definition iofQ (q : Q) : I.type :=
   I.div prec (I.fromZ prec (Qnum q)) (I.fromZ prec (Zpos (Qden q))).
+(* max(a,b) = (a + b + |a - b|) / 2 *)
+Definition imax (a b : I.type) : I.type :=
+  I.mul prec (I.add prec (I.add prec a b) (I.abs (I.sub prec a b))) (iofQ (1#2)).
 Definition NumI : Num I.type :=
   mkNum I.type (I.fromZ prec 0) (I.fromZ prec 1)
         (I.add prec) (I.sub prec) (I.mul prec) (I.div prec) (I.neg) iofQ
-        (I.exp prec) (I.ln prec) (I.sqrt prec).
-(* Output format for the harness: [tag; m_lo; e_lo; m_hi; e_hi], tag 1 = bounded, 0 = other *)
-Definition show_f (f : F.type) : list Z :=
+        (I.exp prec) (I.ln prec) (I.sqrt prec) imax.
+(* Output format for the harness: [tag; m_lo; e_lo; tag; m_hi; e_hi] as bigZ, tag 1 = finite bound *)
+Definition show_f (f : F.type) : list bigZ :=
   match f with
-  | Specific_ops.Float m e => [1%Z; BigZ.to_Z m; BigZ.to_Z e]
-  | _ => [0%Z; 0%Z; 0%Z]
+  | Specific_ops.Float m e => [BigZ.one; m; e]
+  | _ => [BigZ.zero; BigZ.zero; BigZ.zero]
   end.
-Definition show_i (i : I.type) : list Z :=
+Definition show_i (i : I.type) : list bigZ :=
   match i with
   | Float.Ibnd l u => (show_f l ++ show_f u)%list
-  | _ => [0%Z;0%Z;0%Z;0%Z;0%Z;0%Z]
+  | _ => [BigZ.zero; BigZ.zero; BigZ.zero; BigZ.zero; BigZ.zero; BigZ.zero]
   end.
